@@ -460,11 +460,19 @@ class Renderer:
             return f"{self.texpr(s)}({self.make(s['e'], v, style)})"
         raise ValueError(k)
 
-    def tree(self, s, x: str):
+    def tree(self, s, x: str, mask=None):
         """(statements, expression): the value `x` taken apart into the nested list of leaf values that
-        `make` accepts (used by the simulated level to rebuild a value through the constructors)"""
+        `make` accepts (used by the simulated level to rebuild a value through the constructors).  Leaves
+        whose index (cv.ref.layout.leaf_table order) is in `mask` are replaced by the module level
+        compile-time constant `MIX[index]`: a value mixing run-time and constant members."""
         stmts: list[str] = []
         counter = [0]
+        leaf_no = [-1]
+        mask = mask or ()
+
+        def const_or(expr):
+            leaf_no[0] += 1
+            return f"MIX[{leaf_no[0]}]" if leaf_no[0] in mask else expr
 
         def tmp(expr):
             counter[0] += 1
@@ -475,11 +483,11 @@ class Renderer:
         def walk(s, x):
             k = s["k"]
             if k in ("bit", "bool", "bv", "u", "s"):
-                return x
+                return const_or(x)
             if k == "sfix":
-                return f"std.to_bits({x}).signed"
+                return const_or(f"std.to_bits({x}).signed")
             if k == "ufix":
-                return f"std.to_bits({x}).unsigned"
+                return const_or(f"std.to_bits({x}).unsigned")
             if k == "carr":
                 return "[" + ", ".join(walk(s["e"], f"{x}[{i}]") for i in range(s["n"])) + "]"
             if k == "sarr":
@@ -639,9 +647,20 @@ def render_type_module(spec) -> str:
         "                by = tobits(y)\n"
         "                probe('b', k, by, fixed_eq(x, VALS[k]))\n"
     )
-    body.append(_sim_entity(spec, st_l, lv, False))
-    if multi:  # same entity plus o2 = to_bits(value rebuilt through the constructors, keywords reversed)
-        body.append(_sim_entity(spec, st_l, lv, True).replace("class Sim(", "class Sim2(", 1))
+    # values mixing run-time members with compile-time constants: even / odd leaves constant
+    nleaf = len(lv)
+    mix = nleaf >= 2
+    body.append("MIX = []")
+    if mix:
+        for name, mask in (("tree_m0", set(range(0, nleaf, 2))), ("tree_m1", set(range(1, nleaf, 2)))):
+            st_m, e_m = r.tree(spec, "x", mask)
+            body.append(_fn(f"{name}(x)", st_m, e_m))
+    body.append(_sim_entity(spec, st_l, lv))
+    if multi or mix:
+        # same entity plus m0 / m1 = to_bits(value rebuilt through the constructors with the even / odd leaves
+        # replaced by constants; m1 with keywords in reversed order when a record has several members).  o2 (all
+        # members run-time, keywords reversed) is only rendered when there is no mixed variant.
+        body.append(_sim_entity(spec, st_l, lv, o2=multi and not mix, mix=mix, shuf=multi).replace("class Sim(", "class Sim2(", 1))
     return "\n\n".join(body) + "\n"
 
 
@@ -660,7 +679,8 @@ def has_multi_record(spec) -> bool:
     return False
 
 
-def _sim_entity(spec, stmts, lv, multi=False) -> str:
+def _sim_entity(spec, stmts, lv, o2=False, mix=False, shuf=False) -> str:
+    multi = o2
     w = L.width(spec)
     lines = [
         "class Sim(cohdl.Entity):",
@@ -669,6 +689,9 @@ def _sim_entity(spec, stmts, lv, multi=False) -> str:
     ]
     if multi:  # value rebuilt through the constructors with keywords in reversed order
         lines.append(f"    o2 = Port.output(BitVector[{w}])")
+    if mix:
+        lines.append(f"    m0 = Port.output(BitVector[{w}])")
+        lines.append(f"    m1 = Port.output(BitVector[{w}])")
     for n, (_, leaf) in enumerate(lv):
         lines.append(f"    l{n} = Port.output({leaf_port_type(leaf)})")
     lines += [
@@ -683,6 +706,9 @@ def _sim_entity(spec, stmts, lv, multi=False) -> str:
         lines.append(f"            self.l{n} <<= {e}")
     if multi:
         lines.append("            self.o2 <<= tobits(make_shuf(tree(x)))")
+    if mix:
+        lines.append("            self.m0 <<= tobits(make(tree_m0(x)))")
+        lines.append(f"            self.m1 <<= tobits({'make_shuf' if shuf else 'make'}(tree_m1(x)))")
     return "\n".join(lines)
 
 
